@@ -303,6 +303,36 @@ def c06(pid, tier, seed):
 EXTRA["C06"] = c06
 
 
+
+import ast  # noqa: E402
+
+
+def _independent_counter(v):
+    """The value stored into the copy's `_edge_uid` is a counter object of its own that starts at or above the source's next id:
+    `copy(self._edge_uid)`, or a new `count(e)` where every mention of the source's counter inside `e` is wrapped in `copy(..)`
+    (so the source's counter is neither shared nor advanced) and `e` is that copied counter's next value or a `max(..)` having it
+    among its arguments."""
+    if not isinstance(v, ast.Call):
+        return False
+    fid = getattr(v.func, "id", "")
+    if fid == "copy":
+        return len(v.args) == 1 and ast.unparse(v.args[0]) == "self._edge_uid"
+    if fid != "count" or len(v.args) != 1:
+        return False
+    e = v.args[0]
+    wrapped = set()
+    for n in ast.walk(e):
+        if isinstance(n, ast.Call) and getattr(n.func, "id", "") == "copy" and len(n.args) == 1 and ast.unparse(n.args[0]) == "self._edge_uid":
+            wrapped.add(id(n.args[0]))
+    for n in ast.walk(e):
+        if isinstance(n, ast.Attribute) and ast.unparse(n) == "self._edge_uid" and id(n) not in wrapped:
+            return False
+    src_next = "next(copy(self._edge_uid))"
+    if ast.unparse(e) == src_next:
+        return True
+    return isinstance(e, ast.Call) and getattr(e.func, "id", "") == "max" and any(ast.unparse(a) == src_next for a in e.args)
+
+
 def c07(pid, tier, seed):
     """Ownership / deep-copy obligations of copy() and the pickle hooks, discharged on the ASTs,
     plus the native equality/independence oracle (bounded)."""
@@ -348,7 +378,7 @@ def c07(pid, tier, seed):
             if not na or not all(isinstance(n.value, ast.Call) and getattr(n.value.func, "id", "") == "deepcopy" for n in na):
                 why.append("network attributes are not deep-copied")
             uid = [n for n in ast.walk(cp) if isinstance(n, ast.Assign) and isinstance(n.targets[0], ast.Attribute) and n.targets[0].attr == "_edge_uid"]
-            if not uid or not all(isinstance(n.value, ast.Call) and getattr(n.value.func, "id", "") == "copy" and ast.unparse(n.value.args[0]) == "self._edge_uid" for n in uid):
+            if not uid or not all(_independent_counter(n.value) for n in uid):
                 why.append("the id counter is not an independent copy of the source's counter")
             ob("copy:%s" % cls, not why, "; ".join(why) or None, where)
         # pickle hooks (SimplicialComplex inherits Hypergraph's)
